@@ -73,6 +73,30 @@ theorem affine_keeps_outward_orientation {K : Type} [CommRing K] [LinearOrder K]
 example : affineTransform (α := Int) ⟨-1, 0, 0, 0, 1, 0, 0, 0, 1⟩ ⟨5, 0, 0⟩ [⟨1, 2, 3⟩] [(0, 1, 2)]
     = ([⟨4, 2, 3⟩], [(2, 1, 0)]) := by decide
 
+/-- fragment links: the file name is determined by, and determines, the label (no two labels share a file) -/
+theorem link_file_name_injective (dir : String) (nc : Bool) (l l' : Nat)
+    (h : linkName dir l nc = linkName dir l' nc) : l = l' := linkName_injective dir nc l l' h
+
+/-- fragment links list exactly the fragments given for each label: for every CSV whose labels are pairwise distinct,
+    run over a mesh directory that holds none of their files, the run completes, the file of every row holds exactly
+    that row's fragment list (in order), and every other file of the directory is left as it was -/
+theorem links_list_exactly_the_given_fragments (dir : String) (nc : Bool) (rows : List (Nat × List String))
+    (s : LinkStore) (hd : (rows.map (·.1)).Nodup) (hfree : ∀ r ∈ rows, linkGet s (linkName dir r.1 nc) = none) :
+    (links dir nc rows s).2 = true ∧
+    (∀ r ∈ rows, linkGet (links dir nc rows s).1 (linkName dir r.1 nc) = some r.2) ∧
+    (∀ name, (∀ r ∈ rows, name ≠ linkName dir r.1 nc) → linkGet (links dir nc rows s).1 name = linkGet s name) :=
+  links_spec dir nc rows s hd hfree
+
+/-- ... and a row whose file is already there (a label given twice, or a second run over the same directory) stops
+    the run with an error at that row: nothing is overwritten, so no file ever lists fragments of another row -/
+theorem links_never_overwrite (dir : String) (nc : Bool) (l : Nat) (fr : List String) (rest : List (Nat × List String))
+    (s : LinkStore) (h : (linkGet s (linkName dir l nc)).isSome) :
+    links dir nc ((l, fr) :: rest) s = (s, false) := links_existing_aborts dir nc l fr rest s h
+
+example : links "mesh" false [(7, ["a", "b"]), (10, []), (7, ["c"])] [] =
+    ([("mesh/10:0", []), ("mesh/7:0", ["a", "b"])], false) ∧
+    (links "mesh" true [(7, ["a", "b"]), (10, [])] []).2 = true := by decide
+
 /-- the VTK export is parseable by the subset grammar Neuroglancer accepts: for EVERY title, vertex list,
     triangle list over existing vertices and list of vertex attributes with one to four components and one
     row per vertex, the token-level file the writer model produces (compared byte for byte with the real
